@@ -141,8 +141,12 @@ BlockStart(p) == IF p[1] = 0 THEN 0 ELSE BlockStart(Parent(p)) + Slot(p) * Depth
 WalkIndex(p) == BlockStart(p) + Depth2Tiles(Depth - p[1])
 ASSUME \A p \in UpTo(Depth) : WalkIndex(p) = IndexOf(GeneratePos(Depth), p)
 \* the positions that may run next: ready, and among the first Window ready ones in walk order
+\* cascade_images refuses (raises, before touching anything) to start from a level that holds no stored tile: since a
+\* childless parent is removed, a start level deeper than the data would otherwise erase the whole pyramid
+Refused == Depth >= 1 /\ \A l \in Level(Depth) : ~InitPyr(c)[l].ex
 Allowed == LET rs == ReadySet
-           IN IF Cardinality(rs) <= Window THEN rs
+           IN IF Refused THEN {}
+              ELSE IF Cardinality(rs) <= Window THEN rs
               ELSE {p \in rs : Cardinality({q \in rs : WalkIndex(q) < WalkIndex(p)}) < Window}
 Ready(p) == p \in Allowed
 KidTiles(p) == <<pyr[Kid(p, 0)], pyr[Kid(p, 1)], pyr[Kid(p, 2)], pyr[Kid(p, 3)]>>
@@ -154,7 +158,7 @@ Merge(p) == Ready(p) /\ MergeStep(p)
 Next == \E p \in Allowed : MergeStep(p)
 Spec == Init /\ [][Next]_vars
 
-Finished == done = Ops(c)
+Finished == Refused \/ done = Ops(c)
 
 \* ---------------------------------------------------------------- theorems (TLC: INVARIANTs)
 \* the case is inside the stated domain.  Stale files may sit anywhere the walk comes by - with or without a child
@@ -198,6 +202,8 @@ LeafRangeRule == \A l \in Level(Depth) : (c.ranged /\ pyr[l].ex) => pyr[l].rng =
 NoRangeUnlessRanged == ~c.ranged => \A p \in UpTo(Depth) : pyr[p].rng = NoRange
 
 \* the walk never blocks before it is finished, and the serial (post-order) walk is one of the admitted orders
+\* a refused cascade leaves the directory exactly as it found it, stale parent files included
+RefusedLeavesDirectoryAlone == Refused => (done = {} /\ pyr = InitPyr(c))
 Progress == ~Finished => Allowed # {}
 SerialAdmitted ==
     done = {} =>
